@@ -204,7 +204,29 @@ def generate(prop, seed, n):
 
 
 # ------------------------------------------------------------------ BitArray (C13) and npdataclass (C18) share the "misc" family
+def gen_c13_long(r):
+    """local views of operations on arrays of several thousand registers (block-wise implementations, carries between distant
+    registers): see exec_misc.op_bit_embedded"""
+    from .exec_misc import long_array, int_to_dig
+    b = r.choice([1, 2, 4, 8, 16, 32, 32])
+    per = 64 // b
+    regs = r.choice([257, 513, 1025, 1030, 2049, 2050, 4097])
+    n = regs * per + r.randint(0, per - 1) - r.choice([0, 0, per])
+    seed = r.randint(0, 5)
+    arr = long_array(seed, n, b)["a"]
+    k = r.choice(["bit_window", "bit_window", "bit_window", "bit_get", "bit_roundtrip"])
+    w = r.randint(2, per) if k == "bit_window" else (1 if k == "bit_get" else r.randint(1, 6))
+    edge = r.choice([256, 512, 1024, 2048, 4096, regs]) * per            # register-block boundaries of every power of two
+    pos = r.choice([edge - r.randint(0, w + 1), edge - r.randint(0, w + 1), r.randint(0, n - w), n - w - r.randint(0, 3)])
+    pos = max(0, min(pos, n - w))
+    digs = [int_to_dig(x, b) for x in arr[pos:pos + w].tolist()]
+    case = [k, b, digs, w] if k == "bit_window" else [k, b, digs, 0] if k == "bit_get" else [k, b, digs]
+    return case, {"embed": {"seed": seed, "n": n, "pos": pos}, "indt": "u8"}, False
+
+
 def gen_c13(r):
+    if r.random() < 0.08:
+        return gen_c13_long(r)
     b = r.choice([1, 2, 4, 8, 16, 32])
     per = 64 // b
     n = r.choice([0, 1, 2, per - 1, per, per + 1, 2 * per, 2 * per + 1, 3 * per + 2, r.randint(0, 3 * per + 5), r.randint(0, 200)])
